@@ -109,6 +109,15 @@ def build(case, drop=()):
             if src < len(flat):
                 s = flat[src]
                 flat.insert(min(len(flat), src + 1 + delta), [s[0], 100000 + k, s[2], s[3], s[4]])
+        # repacketised retransmissions: a later segment that starts at the sequence number of segment `src` and carries
+        # its bytes followed by those of the next segment of the direction (captured after both: it brings nothing new)
+        for k, (src, delta) in enumerate(case.get("repacks", [])):
+            if src < len(flat):
+                s = flat[src]
+                nxt = next((q for q in flat[src + 1:] if q[0] == s[0] and q[2] == s[2] + len(s[4]) and q[1] < 100000), None)
+                if nxt is not None and s[1] < 100000:
+                    pos = flat.index(nxt) + 1 + delta
+                    flat.insert(min(len(flat), pos), [s[0], 200000 + k, s[2], s[3], s[4] + nxt[4]])
     return flat
 
 
@@ -193,6 +202,8 @@ def rand_case(rng, wrap=None, dups=True, moves=True, first_move=False, nflights=
         total = sum(sizes)
         for _ in range(rng.choice((0, 0, 1, 2, 3))):
             case["dups"].append([rng.randrange(total), rng.randrange(0, 6)])
+        for _ in range(rng.choice((0, 0, 0, 1, 2))):
+            case["repacks"] = case.get("repacks", []) + [[rng.randrange(total), rng.randrange(0, 4)]]
     return case
 
 
